@@ -29,6 +29,8 @@ import (
 
 var r *report.Run
 
+var prevKey, prevWant []byte
+
 func main() {
 	r = report.New("C09", "exploration")
 	sp := spaceFor(r.Thorough())
@@ -395,6 +397,13 @@ func suiteRoutingKeys() {
 			guard("createRoutingKey", rp, func() {
 				got, err := gocql.VerifC09CreateRoutingKey(indexes, types, values)
 				report3("createRoutingKey", got, err)
+				// a key handed out earlier must not change when later keys are built (no shared scratch buffer)
+				if prevKey != nil && !bytes.Equal(prevKey, prevWant) {
+					r.Violation("routing-key:earlier-key-overwritten-by-a-later-one", fmt.Sprintf("the key built just before %s changed from %x to %x when this key was built", id, trunc(prevWant), trunc(prevKey)), rp)
+				}
+				if err == nil {
+					prevKey, prevWant = got, append([]byte(nil), got...)
+				}
 				if err == nil && len(got) > 0 {
 					if tok, wantTok := m3.Hash(got), strconv.FormatInt(refcass.Murmur3Token(want), 10); tok != wantTok {
 						r.Violation("routing-key:token-differs:"+shape, fmt.Sprintf("%s: token %s, Cassandra %s", id, tok, wantTok), rp)
